@@ -64,7 +64,7 @@ fn observe(o: &mut Client, opq: u32) -> (String, String, bool) {
     if o.s.write_all(&b).is_err() {
         return ("dead".into(), "dead".into(), false);
     }
-    let (resp, how) = o.read_until(Duration::from_millis(1500), &|x| tcp::has_opaque(x, opq + 2));
+    let (resp, how) = o.read_until(Duration::from_millis(6000), &|x| tcp::has_opaque(x, opq + 2));
     let rs = parse_responses(&resp);
     let val = |q: u32| -> String {
         for r in &rs {
@@ -118,7 +118,7 @@ pub fn run_fault(srv: &Server, fs: &FStream, bytes: &[u8], cut: usize, kind: &st
         }
         "halfclose" => {
             let _ = f.s.shutdown(Shutdown::Write);
-            let (b, h) = f.read_until(Duration::from_millis(1500), &|_| false);
+            let (b, h) = f.read_until(Duration::from_millis(6000), &|_| false);
             fresp = b;
             fhow = h;
         }
@@ -140,7 +140,7 @@ pub fn run_fault(srv: &Server, fs: &FStream, bytes: &[u8], cut: usize, kind: &st
             // garbage instead of the rest of the stream: an invalid header
             use std::io::Write as W;
             let _ = f.s.write_all(&[0xffu8; 24]);
-            let (b, h) = f.read_until(Duration::from_millis(1500), &|_| false);
+            let (b, h) = f.read_until(Duration::from_millis(6000), &|_| false);
             fresp = b;
             fhow = h;
         }
@@ -178,4 +178,62 @@ pub fn run_fault(srv: &Server, fs: &FStream, bytes: &[u8], cut: usize, kind: &st
 
 pub fn fstream_event(id: usize, fs: &FStream, len: usize) -> Value {
     json!({"e": "fstream", "id": id, "len": len, "frames": fs.meta})
+}
+
+
+/// Fault with a bulky unread answer (C18): the faulty client stores a large value, pipelines a quiet store, a get of
+/// the large value and an invalid header, and never reads (small receive buffer, so the answer sits unsent in the
+/// server's socket when it closes the connection).  The observer and a fresh connection must still be served promptly;
+/// what the faulty connection completely sent before the invalid header is executed.
+pub fn run_bulky(srv: &Server, out: &mut dyn Write) {
+    use std::io::Write as W;
+    use std::net::SocketAddr;
+    tcp::reset_store(srv);
+    let mut o = match Client::connect(srv.port) {
+        Ok(o) => o,
+        Err(_) => {
+            writeln!(out, "{}", json!({"e": "bulky", "alive": false, "fresh": false, "done": "dead", "waited_ms": 0})).unwrap();
+            return;
+        }
+    };
+    let sock = socket2::Socket::new(socket2::Domain::IPV4, socket2::Type::STREAM, None).unwrap();
+    let _ = sock.set_recv_buffer_size(4096);
+    let addr: SocketAddr = format!("127.0.0.1:{}", srv.port).parse().unwrap();
+    if sock.connect(&addr.into()).is_err() {
+        writeln!(out, "{}", json!({"e": "bulky", "alive": false, "fresh": false, "done": "dead", "waited_ms": 0})).unwrap();
+        return;
+    }
+    let mut f: std::net::TcpStream = sock.into();
+    let _ = f.set_nodelay(true);
+    let big = vec![b'B'; 256 * 1024];
+    let mut bytes = Frame::consistent(0x01, &[0u8; 8], b"bulk", &big, 1, 0).bytes();
+    bytes.extend_from_slice(&Frame::consistent(0x11, &[0u8; 8], b"done", b"yes", 2, 0).bytes());
+    for i in 0..4 {
+        bytes.extend_from_slice(&Frame::consistent(0x00, &[], b"bulk", &[], 10 + i, 0).bytes());
+    }
+    bytes.extend_from_slice(&[0xffu8; 24]);
+    let _ = f.write_all(&bytes);
+    // give the server time to work through the pipeline and hit the invalid header
+    std::thread::sleep(Duration::from_millis(300));
+    let t0 = std::time::Instant::now();
+    // the observer asks for the quiet store of the faulty connection
+    let mut b = Frame::consistent(0x00, &[], b"done", &[], 7001, 0).bytes();
+    b.extend_from_slice(&Frame::consistent(0x0a, &[], &[], &[], 7002, 0).bytes());
+    let _ = o.s.write_all(&b);
+    let (resp, how) = o.read_until(Duration::from_millis(6000), &|x| tcp::has_opaque(x, 7002));
+    let waited = t0.elapsed().as_millis() as u64;
+    let rs = parse_responses(&resp);
+    let done = rs.iter().find(|r| r["opq"].as_str() == Some("7001")).map(|r| if r["st"].as_u64() == Some(0) { r["v"].as_str().unwrap_or("").to_string() } else { "miss".to_string() }).unwrap_or("none".to_string());
+    let fresh = match Client::connect(srv.port) {
+        Ok(mut n) => {
+            let _ = n.s.write_all(&Frame::consistent(0x0a, &[], &[], &[], 7003, 0).bytes());
+            let (_r, h) = n.read_until(Duration::from_millis(6000), &|x| tcp::has_opaque(x, 7003));
+            let _ = n.s.shutdown(Shutdown::Both);
+            h == "done"
+        }
+        Err(_) => false,
+    };
+    drop(f);
+    let _ = o.s.shutdown(Shutdown::Both);
+    writeln!(out, "{}", json!({"e": "bulky", "alive": how == "done", "fresh": fresh, "done": done, "waited_ms": waited})).unwrap();
 }
